@@ -85,6 +85,43 @@ theorem tables_agree_with_repo :
       Generated.FrontTables.unopMap Generated.FrontTables.isBinOpTokens = true := by
   decide +kernel
 
+/-! ## error position: the first token that no expression continues with
+
+`Spec.Grammar.firstBad` runs the viable-prefix automaton of the expression grammar.  The
+correspondence feeds corrupted renderings (one token per line) to golua and requires the reported
+line to be the line of token `firstBad`. -/
+
+/-- the automaton accepts every rendering … -/
+theorem firstBad_render (e : Exp) (ps : Parens) : firstBad (render e ps) = none :=
+  Proofs.ParseExp.firstBad_render e ps
+
+/-- … any prefix it has not rejected can be completed to an accepted sequence … -/
+theorem accepted_prefix_viable (p : List Token) (st : PState) (h : scan .start p 0 = .ok st) :
+    firstBad (p ++ Proofs.ParseExp.completion st) = none :=
+  Proofs.ParseExp.accepted_prefix_viable p st h
+
+/-- … and once it rejects token `i`, no continuation whatsoever repairs that: `i` is the position a
+    syntax error has to be reported at -/
+theorem rejected_prefix_dead (p suffix : List Token) (i : Nat) (h : scan .start p 0 = .error i) :
+    firstBad (p ++ suffix) = some i :=
+  Proofs.ParseExp.rejected_prefix_dead p suffix i h
+
+/-- the automaton's operator classes are the parser's tables (hence, by `tables_agree_with_repo`, golua's) -/
+theorem operator_classes_agree (s : Sym) :
+    s.isUnary = (unop? s).isSome ∧ s.isBinary = (binop? s).isSome := by
+  cases s <;> exact ⟨rfl, rfl⟩
+
+/-- PARTIAL: that the language of the automaton is exactly the set of renderings' token sequences, i.e.
+    that `parse ts` succeeds iff `firstBad ts = none` for ARBITRARY `ts`, is not proved (it needs the
+    parser's behaviour on non-renderings); one direction on renderings is `parse_render` + `firstBad_render`,
+    the rest is the `badexp` correspondence (golua's error line vs `firstBad` on corrupted renderings). -/
+theorem error_position_partial (e : Exp) (ps : Parens) :
+    parse (render e ps) = some e ∧ firstBad (render e ps) = none :=
+  ⟨parse_render e ps, firstBad_render e ps⟩
+
+example : firstBad [.atom 0, .sym .plus, .rp, .atom 1] = some 2 := by decide
+example : firstBad [.lp, .atom 0, .sym .plus, .atom 1] = some 4 := by decide
+
 /-! ## multi-valued expressions (§3.4.12): what `explistCount` — the function the correspondence
     compares golua's value counts with — says -/
 
